@@ -139,8 +139,8 @@ impl Drop for Token {
     }
 }
 
-const SLEEP_OP_MS: u64 = 1200;
-const SIM_TIMEOUT_MS: u64 = 300;
+const SLEEP_OP_MS: u64 = 2000;
+const SIM_TIMEOUT_MS: u64 = 500;
 
 struct Shared {
     counters: Arc<Counters>,
@@ -783,7 +783,7 @@ pub fn execute(bench: &Bench, run: &Run, out: &mut dyn Write, start: &Instant) {
                     TIMED_OUT.with(|t| t.set(true));
                     if !run.no_settle {
                         // let the abandoned handler finish before going on
-                        std::thread::sleep(Duration::from_millis(SLEEP_OP_MS + 300));
+                        std::thread::sleep(Duration::from_millis(SLEEP_OP_MS + 500));
                     }
                 }
                 let t = sh.tick_of(simu.time());
